@@ -44,8 +44,20 @@ class ItrOpen(Op):
         return p
 
 
+class ItrOpenSecond(Op):
+    """a second iterator requested on the same CIF while one is open: the library keeps one transaction per CIF and refuses
+    with CIF_ERROR; the refusal must leave the first iterator and what was done through it alone"""
+
+    def lines(self):
+        l, i = self.args
+        return ['itr.open %s %s' % (l, i)]
+
+    def step(self, m, ans):
+        return _rc_check({ERROR}, ans[0], repr(self) + ' while another iterator is open on the same CIF')
+
+
 class ItrNext(Op):
-    """mode: 'new' (fresh packet returned), 'null' (packet argument NULL), 'into' (existing packet holding a foreign item)"""
+    """mode: 'new' (fresh packet returned), 'null' (packet argument NULL), 'into' (existing packet holding a foreign item), 'empty' (existing packet without items)"""
 
     def lines(self):
         i, mode = self.args
@@ -53,6 +65,9 @@ class ItrNext(Op):
             return ['itr.next %s' % i]
         if mode == 'null':
             return ['itr.next %s -' % i]
+        if mode == 'empty':
+            # a packet just created without names, never touched
+            return ['pkt.create P2 0', 'itr.next %s P2' % i, 'pkt.dump P2']
         return ['pkt.create P2 0', 'pkt.set P2 %s %s' % (U('_zz'), vlit('V1')), 'pkt.set P2 %s %s' % (U('_a'), vlit('V3')),
                 'itr.next %s P2' % i, 'pkt.dump P2']
 
@@ -60,7 +75,7 @@ class ItrNext(Op):
         i, mode = self.args
         it = m.I[i]
         ci, c, lp = it.loopref
-        a = ans[3] if mode == 'into' else ans[0]
+        a = ans[3] if mode == 'into' else (ans[1] if mode == 'empty' else ans[0])
         if not it.pending:
             p = _rc_check({FINISHED}, a, repr(self) + ' with every packet already delivered')
             if not p:
@@ -74,7 +89,7 @@ class ItrNext(Op):
                 return ['driver error: ambiguous delivery']
             it.current = it.pending.pop(0)
             return []
-        delivered = a['p'] if mode == 'new' else ans[4]
+        delivered = a['p'] if mode == 'new' else (ans[2] if mode == 'empty' else ans[4])
         if delivered is None:
             return ['%r: no packet content returned' % (self,)]
         j = _match(lp, it.pending, delivered)
